@@ -310,7 +310,17 @@ func (c *FnCtx) localLookup(h *ssa.BasicBlock, upto int, phiVal func(*ssa.Phi) T
 					}
 				case *ssa.Alloc:
 					// a source variable kept in memory (captured by a closure): go/ssa names the cell after it
-					if x.Comment != name || !x.Heap || (b == h && upto >= 0 && idx >= upto) {
+					if x.Comment != name || (b == h && upto >= 0 && idx >= upto) {
+						continue
+					}
+					if sel := x.Type().Underlying().(*types.Pointer).Elem(); isStruct(sel) {
+						// a struct variable lives in its object: name.f reads the object's field now
+						if t, ok := c.vals[x]; ok {
+							bestMem = &cand{1 << 30, idx, TV{T: t, Ty: x.Type()}}
+						}
+						continue
+					}
+					if !x.Heap {
 						continue
 					}
 					if frozenCellStore(x) != nil {
@@ -330,8 +340,8 @@ func (c *FnCtx) localLookup(h *ssa.BasicBlock, upto int, phiVal func(*ssa.Phi) T
 					if x.Object() == nil || x.Object().Name() != name {
 						continue
 					}
-					if _, isVar := x.Object().(*types.Var); !isVar {
-						continue
+					if v, isVar := x.Object().(*types.Var); !isVar || v.IsField() {
+						continue // (a struct field that happens to share the name is not the variable)
 					}
 					if x.IsAddr {
 						el := x.X.Type().Underlying().(*types.Pointer).Elem()
